@@ -190,12 +190,12 @@ Fixpoint un_tstmts (l : list wv) : option (list tstmt) :=
 
 Definition un_gate (t : Z) : option Z := if (t <? 0)%Z then None else Some t.
 
-Fixpoint tf_passes_tr (t : tenv) (d : list name) (body : list gstmt) (st : fstate) (cs : list Z) : list wv :=
+Fixpoint tf_passes_tr (rb : list name) (t : tenv) (d : list name) (body : list gstmt) (st : fstate) (cs : list Z) : list wv :=
   match cs with
   | [] => []
   | c :: r =>
-      match tf_pass c t d body st with
-      | Safe (st1, o) => fw_phase st1 o :: tf_passes_tr t d body st1 r
+      match tf_pass rb c t d body st with
+      | Safe (st1, o) => fw_phase st1 o :: tf_passes_tr rb t d body st1 r
       | Unsafe k => [WL [WI 1; WI (wkind k)]]
       end
   end.
@@ -203,7 +203,7 @@ Fixpoint tf_passes_tr (t : tenv) (d : list name) (body : list gstmt) (st : fstat
 Definition tf_trace (setup : list tstmt) (body : list gstmt) (cs : list Z) : list wv :=
   let '(t0, d0) := track false [] [] (ungated setup) in
   match tf_block false 0 (fun _ => []) [] [] f_init (ungated setup) with
-  | Safe (st0, o) => fw_phase st0 o :: tf_passes_tr t0 d0 body st0 cs
+  | Safe (st0, o) => fw_phase st0 o :: tf_passes_tr (rebound setup body) (loop_env t0 body) d0 body st0 cs
   | Unsafe k => [WL [WI 1; WI (wkind k)]]
   end.
 
@@ -275,7 +275,7 @@ Definition run (v : wv) : wv :=
           wok [wbool (len_ok ss body);
                WL (tf_trace ss body cs);
                WL (tp_trace ss body cs);
-               WL (let t0 := fst (track false [] [] (ungated ss)) in folded_lens (first_env t0 body) t0 body)]
+               WL (let t1 := loop_env (fst (track false [] [] (ungated ss))) body in folded_lens (fn_first (rebound ss body) t1 body) t1 body)]
       | _, _, _, _ => wbad
       end
   | _ => wbad
